@@ -2,6 +2,8 @@
 from checks.tsutil import *
 
 ID = 'C17'
+MODEL_IS_SPEC = True          # the property IS "behaves like the reference model": a disagreement is a violation
+SPEC_EXEMPT = ('kslist',)     # the keyspace list is only constrained (oracle2), not determined, by the reference model
 RULE = ('one case = one backend (in-memory MemStore, SqliteStorage on a file, LmdbStorage in a directory; the same call sequence is generated for all three) and 1-60 Storage calls over 3 keyspaces: '
         'put / multi_put / mark_as_tombstone / mark_many_as_tombstone / remove_tombstones (only on tombstones: the contract) interleaved with get / multi_get / iter_metadata / get_keyspace_list after '
         'every mutation; ids from {0,1,2, 2^63-1, 2^63, 2^64-1} and random u64; payloads empty, small, 64 KiB-1 MiB; arbitrary valid stamps; tombstone before any document; remove-then-reuse; '
